@@ -123,7 +123,8 @@ fn gen_elem(r: &mut Rng, o: &GenOpts, depth: usize, budget: &mut usize, scope: &
     let mut seen: Vec<(String, String)> = vec![];
     for _ in 0..r.below(4) {
         let ap = match r.below(6) { 0 | 1 if !bound.is_empty() => r.pick(&bound).clone(), 2 => "xml".to_string(), _ => "".to_string() };
-        let al = if ap == "xml" { r.pick(&["id", "space", "lang"]).to_string() } else { r.pick(ATTR_LOCALS).to_string() };
+        // (an attribute p:xmlns, with a prefix, is an ordinary attribute whose local name happens to be xmlns)
+        let al = if ap == "xml" { r.pick(&["id", "space", "lang"]).to_string() } else if !ap.is_empty() && r.chance(1, 8) { "xmlns".to_string() } else { r.pick(ATTR_LOCALS).to_string() };
         let uri = if ap.is_empty() { "".to_string() } else { resolve(&sc, &ap).unwrap() };
         if seen.contains(&(uri.clone(), al.clone())) {
             continue;
@@ -682,6 +683,9 @@ pub fn damage(ren: &Rendering, fragment: bool) -> Vec<(String, usize, String)> {
             out.push(("undeclared-prefix-element".into(), e.name_start, ins(e.name_start, "und:")));
         }
         out.push(("undeclared-prefix-attribute".into(), e.attrs_at, ins(e.attrs_at, " und:k='v'")));
+        // the text ends inside a start tag (a fragment's tokenizer ends silently there)
+        out.push(("text-ends-in-start-tag".into(), e.name_end, t[..e.name_end].to_string()));
+        out.push(("text-ends-in-start-tag".into(), e.attrs_at, format!("{} b='1'", &t[..e.attrs_at])));
         out.push(("attribute-twice-by-qname".into(), e.attrs_at, ins(e.attrs_at, " dup='1' dup='2'")));
         out.push(("attribute-twice-by-expanded-name".into(), e.attrs_at, ins(e.attrs_at, " xmlns:d1='urn:dup' xmlns:d2='urn:dup' d1:k='1' d2:k='2'")));
         // ... also where the one expanded name is reached through a prefix bound to the empty namespace name (which the crate
@@ -734,6 +738,10 @@ pub fn damage(ren: &Rendering, fragment: bool) -> Vec<(String, usize, String)> {
             out.push(("comment-ending-in-hyphen".into(), c, ins(c, "<!-- a --->")));
             out.push(("cdata-end-in-text".into(), c, ins(c, "a]]>b")));
             out.push(("xml-declaration-in-content".into(), c, ins(c, "<?xml version='1.0'?>")));
+            // PI ::= '<?' PITarget (S (Char* - (Char* '?>' Char*)))? '?>': white space between the target and what follows it
+            for bad in ["<?a+b?>", "<?a?b?>", "<?a<b?>", "<?a\u{e9}=1?>", "<?pi<?xml version='1.0'?>"] {
+                out.push((format!("pi-without-space-after-target:{}", bad.escape_default()), c, ins(c, bad)));
+            }
             // PITarget ::= Name - (('X' | 'x') ('M' | 'm') ('L' | 'l')): the target xml is reserved in every case and with any
             // white space after it
             for bad in ["<?xml\tversion='1.0'?>", "<?xml\nx?>", "<?XML x?>", "<?Xml?>", "<?xMl\ty?>", "<?xml?>"] {
